@@ -769,7 +769,7 @@ class WorkerPool:
                             break
 
                         # To keep the number of active tasks below max_tasks_active, we have to wait for results
-                        while (not self._worker_comms.exception_thrown() and
+                        while (not self._worker_comms.exception_thrown() and n_active > 0 and
                                n_active + len(chunk_of_tasks) > max_tasks_active):
                             try:
                                 yield imap_iterator.next(block=True, timeout=0.01)
